@@ -5,6 +5,7 @@ import ParryModel.C03.Driver
 import ParryModel.C02.Exact
 import ParryModel.C02.Epa2
 import ParryModel.C02.Epa3
+import ParryModel.C02.Csm
 /-!
 C02 protocol handlers (closed forms).  The closed-form `details::` functions and their exact world-frame judges
 (`judgeContact` = contact validity: unit normals, `normal2 = -normal1` in world space, `dist = (p2 - p1)·n1`,
@@ -737,7 +738,145 @@ def handlerCore (fn : String) : Option Handler :=
         | none => "skip bad-args" }
   | _ => none
 
+/-! ## follow-up 5: `csm2` / `csm3` — the complete `details::contact_support_map_support_map` (own GJK, EPA and assembly) on
+Cuboid / Ball support maps.  Model: `Model.contactSmSm2/3` (C01 GJK model + C02 EPA model, Csm.lean), bit-exact.
+Oracle (independent of both models): the exact signed separation of `Exact.lean` decides `None` iff beyond `prediction`,
+`dist` = separation distance when apart, `dist` = -(minimum separating translation) when overlapping, `|dist|` ≤ overlap along
+`normal1`; then the record itself: unit normals, `normal2 = -normal1` in the frame of shape 1,
+`dist = (pos12·point2 - point1)·normal1`, `dist ≤ prediction`, witnesses on their own shapes (exact membership excess). -/
+
+/-- self-consistency of a contact expressed in the frame of shape 1, with exact membership excesses `m1 m2` -/
+def judgeSelfExact (tag : String) (sz S pred : Rat) (c : Contact3 Rat) (m1 m2 : Rat) : String :=
+  let t6 : Rat := (1 / 1000000) * (1 + sz) + tol * S
+  let wtol : Rat := (1 / 1000000) * (1 + sz + S + rabs c.dist)
+  if c.normal1.normSq == 0 && c.dist == 0 then s!"fail null-contact {tag} (zero normals, dist 0: EPA gave up)"
+  else if !close c.normal1.normSq 1 1000 then s!"fail normal1-not-unit {tag}"
+  else if !close c.normal2.normSq 1 1000 then s!"fail normal2-not-unit {tag}"
+  else if !closeV c.normal2 c.normal1.neg 1000 then s!"fail normal2-is-not-minus-normal1-in-the-frame-of-shape-1 {tag}"
+  else if rabs ((c.point2.sub c.point1).dot c.normal1 - c.dist) > t6 + (1 / 1000000) * rabs c.dist then
+    s!"fail dist-is-not-(p2-p1).n1 {tag} dist={c.dist.toF} (p2-p1).n1={((c.point2.sub c.point1).dot c.normal1).toF}"
+  else if c.dist > pred + t6 then s!"fail dist-beyond-prediction {tag}"
+  else
+    let touch := if c.dist == 0 then " exactly-touching" else ""
+    if m1 > wtol then s!"fail witness1-not-on-its-shape {tag}{touch} off-by={m1.toF}"
+    else if m2 > wtol then s!"fail witness2-not-on-its-shape {tag}{touch} off-by={m2.toF}"
+    else "pass"
+
+def csm2Oracle (k1 : Nat) (fa1 fb1 : Float) (k2 : Nat) (fa2 fb2 : Float) (pos12 : Iso2 Float) (pred : Float) (o : List String) : String :=
+  let M := qiso2 pos12
+  if !unitC M then "skip non-unit-rotation" else
+  if q pred < 0 then "skip negative-parameter" else
+  let I : Iso2 Rat := ⟨1, 0, ⟨0, 0⟩⟩
+  let (a1, b1, a2, b2) := (q fa1, q fb1, q fa2, q fb2)
+  let sh (k : Nat) (a b : Float) : XShape2 := .prim (if k = 0 then .cuboid ⟨a, b⟩ else .ball a)
+  let onCorner : Bool :=
+    if k1 != 0 && k2 = 0 then (let l := M.invAct ⟨0, 0⟩; rabs l.x == a2 && rabs l.y == b2)
+    else if k1 = 0 && k2 != 0 then (rabs M.t.x == a1 && rabs M.t.y == b1) else false
+  let tag := s!"pair={if k1 = 0 then "cuboid" else "ball"}/{if k2 = 0 then "cuboid" else "ball"}{if k1 != 0 && k2 != 0 && vmag2 M.t == 0 then "[concentric]" else if onCorner then "[round-cores-touching]" else if k1 != 0 || k2 != 0 then "[round]" else ""}"
+  match o with
+  | "panic" :: _ => s!"fail panic {tag}"
+  | _ =>
+  match run pcontactOut2 o, geom2 (sh k1 fa1 fb1) I, geom2 (sh k2 fa2 fb2) M with
+  | some out, some G1, some G2 =>
+    (match sepG2 G1 G2 with
+    | none => "skip no-exact-separation"
+    | some sep =>
+      if (out.map finiteContact2).getD true == false then s!"fail nonfinite-output {tag}" else
+      let sz := a1 + b1 + a2 + b2; let S := vmag2 M.t
+      let t : Rat := (1 / 1000000) * (1 + sz + S + rabs sep)
+      let over (n : V3 Rat) : Option Rat := match G1, G2 with
+        | .conv A, .conv B => some (overlapAlong2 A B ⟨n.x, n.y⟩)
+        | _, _ => none
+      let self (c : Contact3 Rat) : String :=
+        judgeSelfExact tag sz S (q pred) c (epaOutside k1 a1 b1 I ⟨c.point1.x, c.point1.y⟩) (epaOutside k2 a2 b2 M ⟨c.point2.x, c.point2.y⟩)
+      -- the contact in the frame of shape 1: point2 and normal2 are local to shape 2
+      let inFrame1 (c : Contact2 Rat) : Contact3 Rat := embedC ⟨c.point1, M.act c.point2, c.normal1, M.rot c.normal2, c.dist⟩
+      -- `[round]` marks the accuracy class of GJK / EPA on a curved obstacle (value within 0.5 % of the exact one); a coarser
+      -- error on a round shape is tagged `[round-coarse]` and is not covered by any known line
+      let tag := match out with
+        | some c => if rabs (q c.dist - sep) > (5 / 1000) * rabs sep then tag.replace "[round]" "[round-coarse]" else tag
+        | none => tag
+      judgeExactContact tag sep t (q pred) over self (out.map fun c => inFrame1 (qcontact2 c)))
+  | none, _, _ => "fail unparsable-output"
+  | _, _, _ => "skip no-exact-geometry"
+
+def csm3Oracle (k1 : Nat) (fh1 : V3 Float) (k2 : Nat) (fh2 : V3 Float) (pos12 : Iso3 Float) (pred : Float) (o : List String) : String :=
+  let M := qiso3 pos12
+  if !unitQ M then "skip non-unit-rotation" else
+  if q pred < 0 then "skip negative-parameter" else
+  let I : Iso3 Rat := ⟨0, 0, 0, 1, ⟨0, 0, 0⟩⟩
+  let (h1, h2) := (q3 fh1, q3 fh2)
+  let sh (k : Nat) (h : V3 Float) : XShape3 := .prim (if k = 0 then .cuboid h else .ball h.x)
+  let onB (l h : V3 Rat) : Bool :=
+    rabs l.x ≤ h.x && rabs l.y ≤ h.y && rabs l.z ≤ h.z &&
+    ((if rabs l.x == h.x then 1 else 0) + (if rabs l.y == h.y then 1 else 0) + (if rabs l.z == h.z then 1 else 0) : Nat) ≥ 2
+  let onEdge : Bool :=
+    if k1 != 0 && k2 = 0 then onB (M.invAct ⟨0, 0, 0⟩) h2
+    else if k1 = 0 && k2 != 0 then onB M.t h1 else false
+  let tag := s!"pair={if k1 = 0 then "cuboid" else "ball"}/{if k2 = 0 then "cuboid" else "ball"}{if k1 != 0 && k2 != 0 && vmag M.t == 0 then "[concentric]" else if onEdge then "[round-cores-touching]" else if k1 != 0 || k2 != 0 then "[round]" else ""}"
+  let tag := tag ++ (if k1 = 0 && k2 = 0 && symmetricParallelBoxes (sh k1 fh1) (sh k2 fh2) I M then "[symmetric-parallel-boxes]" else "")
+  match o with
+  | "panic" :: _ => s!"fail panic {tag}"
+  | _ =>
+  match run pcontactOut o, geom3 (sh k1 fh1) I, geom3 (sh k2 fh2) M with
+  | some out, some G1, some G2 =>
+    (match sepG3 G1 G2 with
+    | none => "skip no-exact-separation"
+    | some sep =>
+      if (out.map finiteContact).getD true == false then s!"fail nonfinite-output {tag}" else
+      let sz := (if k1 = 0 then vmag h1 else h1.x) + (if k2 = 0 then vmag h2 else h2.x); let S := vmag M.t
+      let t : Rat := (1 / 1000000) * (1 + sz + S + rabs sep)
+      let over (n : V3 Rat) : Option Rat := match G1, G2 with
+        | .conv A _, .conv B _ => some (overlapAlong3 A B n)
+        | _, _ => none
+      let tag := match G1, G2 with
+        | .conv A _, .conv B _ => if centreOnVertex3 A B then tag ++ "[centre-on-vertex]" else tag
+        | _, _ => tag
+      let self (c : Contact3 Rat) : String :=
+        judgeSelfExact tag sz S (q pred) c (epa3Outside k1 h1 I c.point1) (epa3Outside k2 h2 M c.point2)
+      let inFrame1 (c : Contact3 Rat) : Contact3 Rat := ⟨c.point1, M.act c.point2, c.normal1, M.rot c.normal2, c.dist⟩
+      let tag := match out with
+        | some c => if rabs (q c.dist - sep) > (5 / 1000) * rabs sep then tag.replace "[round]" "[round-coarse]" else tag
+        | none => tag
+      judgeExactContact tag sep t (q pred) over self (out.map fun c => inFrame1 (qcontact c)))
+  | none, _, _ => "fail unparsable-output"
+  | _, _, _ => "skip no-exact-geometry"
+
+def fContact2 : Option (Option (Contact2 Float)) → String
+  | some (some c) => s!"some {fv2 c.point1} {fv2 c.point2} {fv2 c.normal1} {fv2 c.normal2} {ff c.dist}"
+  | some none => "none"
+  | none => "panic"
+def fContact3 : Option (Option (Contact3 Float)) → String
+  | some (some c) => s!"some {fv3 c.point1} {fv3 c.point2} {fv3 c.normal1} {fv3 c.normal2} {ff c.dist}"
+  | some none => "none"
+  | none => "panic"
+
+def pCsm2 : P (Nat × Float × Float × Nat × Float × Float × Iso2 Float × Float) := do
+  let k1 ← pnat; let a1 ← pf; let b1 ← pf; let k2 ← pnat; let a2 ← pf; let b2 ← pf; let m ← piso2; let p ← pf
+  pure (k1, a1, b1, k2, a2, b2, m, p)
+def pCsm3 : P (Nat × V3 Float × Nat × V3 Float × Iso3 Float × Float) := do
+  let k1 ← pnat; let h1 ← pv3; let k2 ← pnat; let h2 ← pv3; let m ← piso3; let p ← pf
+  pure (k1, h1, k2, h2, m, p)
+
+def handlerCsm (fn : String) : Option Handler :=
+  match fn with
+  | "csm2" => some {
+      model := fun a => run (do
+        let (k1, a1, b1, k2, a2, b2, m, p) ← pCsm2
+        pure (fContact2 (contactSmSm2 m (epaSupp1 k1 a1 b1) (epaSupp2 k2 a2 b2 m) p 128))) a
+      oracle := fun a o => match run pCsm2 a with
+        | some (k1, a1, b1, k2, a2, b2, m, p) => csm2Oracle k1 a1 b1 k2 a2 b2 m p o
+        | none => "skip bad-args" }
+  | "csm3" => some {
+      model := fun a => run (do
+        let (k1, h1, k2, h2, m, p) ← pCsm3
+        pure (fContact3 (contactSmSm3 m (epa3Supp1 k1 h1) (epa3Supp2 k2 h2 m) p 4096))) a
+      oracle := fun a o => match run pCsm3 a with
+        | some (k1, h1, k2, h2, m, p) => csm3Oracle k1 h1 k2 h2 m p o
+        | none => "skip bad-args" }
+  | _ => none
+
 /-- every C02 oracle starts with the totality clause (`fail non-finite-output …`, see `C03.guardFinite`) -/
-def handler (fn : String) : Option Handler := (handlerCore fn).map (guardFinite fn)
+def handler (fn : String) : Option Handler := ((handlerCore fn).orElse fun _ => handlerCsm fn).map (guardFinite fn)
 
 end C02
